@@ -1157,6 +1157,8 @@ pub fn units(family: &str, thorough: bool) -> Vec<Unit> {
         "pack" | "packseg" => f_pack(thorough),
         "perm" => f_perm(thorough),
         "latbound" => f_latbound(thorough),
+        // BYODS programs for the re-run histories of C13 (a BYODS relation keeps its contents in its own structure across runs)
+        "dsrerun" => f_ds(false).into_iter().filter(|u| u.sym.is_none() && u.tag.contains("-binary-") && (u.tag.contains("-at-once-") || u.tag.contains("-clocked-"))).collect(),
         _ => panic!("unknown family {}", family),
     }
 }
